@@ -172,3 +172,15 @@ package panos
 // this activation itself appends to the script (member deletes, the set of new
 // members) must therefore be appended only when it can no longer fail.
 //vc:emitonsuccess[C03] (*rulesPair).equalize$1 result
+
+// ---- C18: a raw file the merge cannot represent is rejected ----
+// processVsysPairs merges the first <devices> entry only and finds one vsys
+// per name; checkRaw must therefore refuse a raw file with a second device
+// entry or with two vsys entries of one name (their rules would be dropped).
+//vc:spec macro vsysNamesDistinct(d *panDevice) bool = forall i int, j int :: { d.Vsys[i], d.Vsys[j] } 0 <= i && i < j && j < len(d.Vsys) ==> d.Vsys[i].Name != d.Vsys[j].Name
+//vc:func checkRaw
+//vc:  invariant[C18] 1 "for _, d := range c.Devices.Entries" -1 <= rangeindex && (rangeindex >= 0 ==> vsysNamesDistinct(c.Devices.Entries[0]))
+//vc:  invariant[C18] 2 "for _, v := range d.Vsys" @vsysSeenSoFar -1 <= rangeindex && rangeindex < len(d.Vsys) && (forall i int :: { d.Vsys[i] } 0 <= i && i <= rangeindex ==> (d.Vsys[i].Name in seen) && seen[d.Vsys[i].Name]) && (forall i int, j int :: { d.Vsys[i], d.Vsys[j] } 0 <= i && i < j && j <= rangeindex ==> d.Vsys[i].Name != d.Vsys[j].Name)
+//vc:  invariant[C18] 3 "for _, r := range v.Rules" true
+//vc:  ensures[C18] @oneDeviceEntry result == nil && c.Devices != nil ==> len(c.Devices.Entries) <= 1
+//vc:  ensures[C18] @vsysNamesDistinct result == nil && c.Devices != nil && len(c.Devices.Entries) == 1 ==> vsysNamesDistinct(c.Devices.Entries[0])
